@@ -565,12 +565,15 @@ def check(ctx):
         import c11
         a11 = [to_c11(c) for c in acases]
         aouts = run_impl(ctx, "c11", "impl_adaptive", a11, per_case_timeout=180)
-        verdicts = [("worker error: " + str(o.get("err"))) if "err" in o else c11.adaptive_verdict(c, o) for c, o in zip(a11, aouts)]
+        anotes = []
+        verdicts = [("worker error: " + str(o.get("err"))) if "err" in o else c11.adaptive_verdict(c, o, anotes) for c, o in zip(a11, aouts)]
         gfa = set(c11.adaptive_guards(ctx, a11, "c09"))
         listed = {f.get("guard") for f in known_findings("C09")}
         fresh = [i for i, v in enumerate(verdicts) if v and not (i in gfa and "g_dde_slots_aligned" in listed)]
-        ctx.note(f"adaptive-solver stream (solver='scipy', vectorized and not, closed form of the delayed ramps; labelled tolerance "
-                 f"{c11.ADAPTIVE_TOL}): {len(acases)} circuits, {sum(1 for v in verdicts if v)} failing, {len(gfa)} outside Gamma.g_dde_slots_aligned "
+        ctx.note(f"adaptive-solver stream, closed form of delayed ramps (note only, never deciding): {len(anotes)} circuits deviate by more than "
+                 f"{c11.ADAPTIVE_TOL} relative" + (f" (worst {max(anotes):.2e})" if anotes else ""))
+        ctx.note(f"adaptive-solver stream (solver='scipy', vectorized and not; deciding: exceptions, vec vs non-vec beyond {c11.VEC_TOL} relative"
+                 f"): {len(acases)} circuits, {sum(1 for v in verdicts if v)} failing, {len(gfa)} outside Gamma.g_dde_slots_aligned "
                  f"({sum(1 for i in gfa if verdicts[i])} of them failing), unexplained failures {len(fresh)}")
         for i in fresh[:2]:
             violation(ctx, write_replay(ctx, "counterexample", dict(case=acases[i], what=verdicts[i], implementation_output=aouts[i])))
